@@ -43,10 +43,32 @@ Theorem C13_advertised_truthful_children_partial : forall evs,
   along session_present init evs = true -> pend (run init evs) = [] -> children_truthful (run init evs).
 Proof. exact children_told_run. Qed.
 
-(* ... and false without that condition (finding F27: tree changes while logged out). *)
-Theorem C13_advertised_truthful_children_refuted :
+(* ... and false without that condition as long as a new session does not re-advertise to the
+   children (finding F27: tree changes while logged out). [session_init_readvertises] is generated
+   from _on_session_initialized. *)
+Theorem C13_advertised_truthful_children_refuted : session_init_readvertises = false ->
   exists evs, pend (run init evs) = [] /\ ~ children_truthful (run init evs).
 Proof. exact children_told_refuted. Qed.
+
+(* Once _on_session_initialized re-advertises to the children (proposed_fixes/F27.diff) the statement
+   is full: after EVERY event list and schedule, whenever a session exists and no handler is
+   suspended, every live child was last told the current position. *)
+Theorem C13_advertised_truthful_children_when_readvertised : session_init_readvertises = true ->
+  forall evs, pend (run init evs) = [] -> children_truthful_in_session (run init evs).
+Proof. exact children_told_full. Qed.
+
+(* The procedural handlers of the source still have the shape the hand-written machine implements:
+   effect lists regenerated from _set_parent, _unset_parent, _on_state_changed(CLOSED), _on_session_initialized,
+   _on_session_destroyed, reset, _remove_child; order of the three messages to the server; the parent-search flag;
+   the level sent to the children when the parent is lost; independent queued sends to the children. *)
+Theorem C13_model_follows_source :
+  set_parent_effects = model_set_parent_effects /\ unset_parent_effects = model_unset_parent_effects /\
+  closed_handler_effects = model_closed_handler_effects /\ session_init_effects = model_session_init_effects /\
+  session_destroyed_effects = model_session_destroyed_effects /\ reset_effects = model_reset_effects /\
+  remove_child_effects = model_remove_child_effects /\
+  server_advert_order = [AF_level; AF_root; AF_search] /\ unset_children_level = 0 /\
+  (forall b, parent_search_flag b = negb b) /\ children_send_independent = true.
+Proof. exact model_follows_source. Qed.
 
 (* non-vacuity: a parent chosen among two candidates, a child admitted, the parent lost under Hold
    and a new one chosen before Release; then the new parent announces another level; and the two
